@@ -8,6 +8,14 @@ and the `Vector`/`Matrix` wrappers, instantiated at an arbitrary field of charac
 (moments, covariances: every ordered field, `ℚ`, `ℝ`), an arbitrary linear order (extrema) or an
 arbitrary field (bin centres).  Textbook definitions: `mu`, `m2`, `comoment` in `Lemmas/C08.lean`.
 -/
+/-
+Naming.  Theorems suffixed `_total` are the algebraic identities as they hold in a Lean field for EVERY list,
+including the degenerate sizes where the code divides by `n = 0` or `n − 1 = 0`: there the identity holds only
+through Lean's convention `x / 0 = 0`, whereas the Rust code returns NaN (`0.0 / 0.0`).  They are kept as internal
+lemmas.  The property theorems (section `Guarded` at the end of this file) carry exactly the size guard under
+which the statistic is defined — `1 ≤ n` for the population statistics, `2 ≤ n` for the sample statistics — and
+section `Degenerate` states what the code computes below those sizes (a quotient with denominator `0`).
+-/
 set_option linter.unusedSectionVars false
 namespace Cv.C08
 open Cv
@@ -46,24 +54,24 @@ theorem welford_inv (l : List α) : welfordStatistics l = (l.length, mu l, m2 l)
   rw [welford_raw, m2_raw]; rfl
 
 
-theorem welfordMean_eq (l : List α) : welfordMean l = mu l := by
+theorem welfordMean_eq_total (l : List α) : welfordMean l = mu l := by
   simp [welfordMean, welford_inv]
 
 omit [CharZero α] in
 /-- `mean` (through the 8-way unrolled sum) is the arithmetic mean. -/
-theorem mean_eq (l : List α) : mean l = mu l := by
+theorem mean_eq_total (l : List α) : mean l = mu l := by
   simp [mean, mu, sum8_eq]
 
 /-- The two mean algorithms agree. -/
-theorem means_agree (l : List α) : welfordMean l = mean l := by
-  rw [welfordMean_eq, mean_eq]
+theorem means_agree_total (l : List α) : welfordMean l = mean l := by
+  rw [welfordMean_eq_total, mean_eq_total]
 
 /-- Population variance `Σ(x − x̄)²/n`. -/
-theorem var_eq (l : List α) : var l = m2 l / (l.length : α) := by
+theorem var_eq_total (l : List α) : var l = m2 l / (l.length : α) := by
   simp [var, welford_inv]
 
 /-- Sample variance `Σ(x − x̄)²/(n−1)` for non-empty data. -/
-theorem sampleVar_eq (l : List α) (h : l ≠ []) :
+theorem sampleVar_eq_total (l : List α) (h : l ≠ []) :
     sampleVar l = some (m2 l / ((l.length - 1 : ℕ) : α)) := by
   have : l.length ≠ 0 := fun h0 => h (List.eq_nil_of_length_eq_zero h0)
   simp [sampleVar, welford_inv, this]
@@ -74,14 +82,14 @@ theorem sampleVar_nil : sampleVar ([] : List α) = none := by
   simp [sampleVar, welfordStatistics]
 
 example : sampleVar ([1, 2, 4] : List ℚ) = some (7 / 3) := by
-  rw [sampleVar_eq _ (by simp)]; norm_num [m2, mu]
+  rw [sampleVar_eq_total _ (by simp)]; norm_num [m2, mu]
 
-theorem std_eq [Transc α] (l : List α) : std l = Transc.sqrt (m2 l / (l.length : α)) := by
-  simp [std, var_eq]
+theorem std_eq_total [Transc α] (l : List α) : std l = Transc.sqrt (m2 l / (l.length : α)) := by
+  simp [std, var_eq_total]
 
-theorem sampleStd_eq [Transc α] (l : List α) (h : l ≠ []) :
+theorem sampleStd_eq_total [Transc α] (l : List α) (h : l ≠ []) :
     sampleStd l = some (Transc.sqrt (m2 l / ((l.length - 1 : ℕ) : α))) := by
-  simp [sampleStd, sampleVar_eq l h]
+  simp [sampleStd, sampleVar_eq_total l h]
 
 end Welford
 
@@ -89,11 +97,11 @@ section Covariance
 variable {α : Type} [Field α] [CharZero α]
 
 theorem coMoment_eq (x y : List α) : coMoment x y = comoment x y := by
-  simp only [coMoment, comoment, iterSum_eq, mean_eq, List.map_zip_eq_zipWith]
+  simp only [coMoment, comoment, iterSum_eq, mean_eq_total, List.map_zip_eq_zipWith]
   rfl
 
 /-- Population covariance `Σ(xᵢ−x̄)(yᵢ−ȳ)/n`. -/
-theorem covariance_eq (x y : List α) (h : x.length = y.length) :
+theorem covariance_eq_total (x y : List α) (h : x.length = y.length) :
     covariance x y = some (comoment x y / (x.length : α)) := by
   simp [covariance, h, coMoment_eq]
 
@@ -104,7 +112,7 @@ theorem covariance_length_mismatch (x y : List α) (h : x.length ≠ y.length) :
   simp [covariance, h]
 
 /-- Sample covariance `Σ(xᵢ−x̄)(yᵢ−ȳ)/(n−1)`. -/
-theorem sampleCovariance_eq (x y : List α) (h : x.length = y.length) (hx : x ≠ []) :
+theorem sampleCovariance_eq_total (x y : List α) (h : x.length = y.length) (hx : x ≠ []) :
     sampleCovariance x y = some (comoment x y / ((x.length - 1 : ℕ) : α)) := by
   have : y.length ≠ 0 := fun h0 => hx (List.eq_nil_of_length_eq_zero (h ▸ h0))
   simp [sampleCovariance, h, coMoment_eq, this]
@@ -127,9 +135,9 @@ theorem onepass_fold (x0 y0 : α) (P : List (α × α)) (s : α × α × α) :
     refine Prod.ext ?_ (Prod.ext ?_ ?_) <;> simp only <;> ring
 
 /-- The repaired shifted one-pass algorithm (F17) computes the sample covariance. -/
-theorem onepass_eq_sampleCovariance (x y : List α) (h : x.length = y.length) (hx : x ≠ []) :
+theorem onepass_eq_sampleCovariance_total (x y : List α) (h : x.length = y.length) (hx : x ≠ []) :
     sampleCovarianceOnepass x y = sampleCovariance x y := by
-  rw [sampleCovariance_eq x y h hx]
+  rw [sampleCovariance_eq_total x y h hx]
   obtain ⟨x0, xt, rfl⟩ := List.exists_cons_of_ne_nil hx
   obtain ⟨y0, yt, rfl⟩ : ∃ y0 yt, y = y0 :: yt := by
     cases y with
@@ -157,7 +165,7 @@ theorem onepass_eq_sampleCovariance (x y : List α) (h : x.length = y.length) (h
   ring
 
 example : sampleCovarianceOnepass ([0, 1, 2] : List ℚ) [0, 1, 2] = some 1 := by
-  rw [onepass_eq_sampleCovariance _ _ rfl (by simp), sampleCovariance_eq _ _ rfl (by simp)]
+  rw [onepass_eq_sampleCovariance_total _ _ rfl (by simp), sampleCovariance_eq_total _ _ rfl (by simp)]
   norm_num [comoment, mu]
 
 theorem online_snoc (P : List (α × α)) (p : α × α) (s : α × α × α × α) :
@@ -189,9 +197,9 @@ theorem online_inv (P : List (α × α)) :
       · simp only [Nat.cast_add, Nat.cast_one]
 
 /-- The repaired online algorithm (F18) computes the sample covariance. -/
-theorem online_eq_sampleCovariance (x y : List α) (h : x.length = y.length) (hx : x ≠ []) :
+theorem online_eq_sampleCovariance_total (x y : List α) (h : x.length = y.length) (hx : x ≠ []) :
     sampleCovarianceOnline x y = sampleCovariance x y := by
-  rw [sampleCovariance_eq x y h hx]
+  rw [sampleCovariance_eq_total x y h hx]
   simp only [sampleCovarianceOnline, if_pos h]
   rw [online_inv, comoment_raw _ _ h, List.map_fst_zip (by omega), List.map_snd_zip (by omega)]
   have hl : (List.zip x y).length = x.length := by simp [h]
@@ -203,13 +211,13 @@ theorem online_eq_sampleCovariance (x y : List α) (h : x.length = y.length) (hx
 
 /-- All provided sample-covariance algorithms agree, and the population covariance is the same
 co-moment divided by `n`. -/
-theorem covariance_algorithms_agree (x y : List α) (h : x.length = y.length) (hx : x ≠ []) :
+theorem covariance_algorithms_agree_total (x y : List α) (h : x.length = y.length) (hx : x ≠ []) :
     sampleCovarianceOnepass x y = sampleCovariance x y ∧
     sampleCovarianceOnline x y = sampleCovariance x y ∧
     sampleCovariance x y = some (comoment x y / ((x.length - 1 : ℕ) : α)) ∧
     covariance x y = some (comoment x y / (x.length : α)) :=
-  ⟨onepass_eq_sampleCovariance x y h hx, online_eq_sampleCovariance x y h hx,
-   sampleCovariance_eq x y h hx, covariance_eq x y h⟩
+  ⟨onepass_eq_sampleCovariance_total x y h hx, online_eq_sampleCovariance_total x y h hx,
+   sampleCovariance_eq_total x y h hx, covariance_eq_total x y h⟩
 
 /-- On empty input the online algorithm does not panic (`n` is a float there): it returns
 `0 / (0 − 1)`, unlike the other two sample-covariance algorithms. -/
@@ -263,40 +271,40 @@ theorem m2_scale (l : List α) (s : α) : m2 (l.map (s * ·)) = s ^ 2 * m2 l := 
   rw [m2_eq_comoment, m2_eq_comoment, comoment_scale, pow_two]
 
 /-- Variance is unchanged by adding a constant to the data (for every size of the constant). -/
-theorem var_shift (l : List α) (c : α) : var (l.map (· + c)) = var l := by
-  simp [var_eq, m2_shift]
+theorem var_shift_total (l : List α) (c : α) : var (l.map (· + c)) = var l := by
+  simp [var_eq_total, m2_shift]
 
 /-- Variance scales quadratically. -/
 theorem var_scale (l : List α) (s : α) : var (l.map (s * ·)) = s ^ 2 * var l := by
-  simp [var_eq, m2_scale, mul_div_assoc]
+  simp [var_eq_total, m2_scale, mul_div_assoc]
 
-theorem sampleVar_shift (l : List α) (c : α) : sampleVar (l.map (· + c)) = sampleVar l := by
+theorem sampleVar_shift_total (l : List α) (c : α) : sampleVar (l.map (· + c)) = sampleVar l := by
   by_cases h : l = []
   · subst h; rfl
-  · rw [sampleVar_eq _ (by simpa using h), sampleVar_eq _ h, m2_shift, List.length_map]
+  · rw [sampleVar_eq_total _ (by simpa using h), sampleVar_eq_total _ h, m2_shift, List.length_map]
 
 theorem sampleVar_scale (l : List α) (s : α) :
     sampleVar (l.map (s * ·)) = (sampleVar l).map (s ^ 2 * ·) := by
   by_cases h : l = []
   · subst h; rfl
-  · rw [sampleVar_eq _ (by simpa using h), sampleVar_eq _ h, m2_scale, List.length_map]
+  · rw [sampleVar_eq_total _ (by simpa using h), sampleVar_eq_total _ h, m2_scale, List.length_map]
     simp [mul_div_assoc]
 
-/-- Covariance (all four algorithms, through `covariance_algorithms_agree`) is unchanged by adding
+/-- Covariance (all four algorithms, through `covariance_algorithms_agree_total`) is unchanged by adding
 constants to either variable. -/
-theorem cov_shift (x y : List α) (c d : α) :
+theorem cov_shift_total (x y : List α) (c d : α) :
     covariance (x.map (· + c)) (y.map (· + d)) = covariance x y ∧
     sampleCovariance (x.map (· + c)) (y.map (· + d)) = sampleCovariance x y := by
   by_cases h : x.length = y.length
   · constructor
-    · rw [covariance_eq _ _ (by simpa using h), covariance_eq _ _ h, comoment_shift _ _ _ _ h,
+    · rw [covariance_eq_total _ _ (by simpa using h), covariance_eq_total _ _ h, comoment_shift _ _ _ _ h,
         List.length_map]
     · by_cases hx : x = []
       · subst hx
         have : y = [] := List.eq_nil_of_length_eq_zero (by simpa using h.symm)
         subst this; rfl
-      · rw [sampleCovariance_eq _ _ (by simpa using h) (by simpa using hx),
-          sampleCovariance_eq _ _ h hx, comoment_shift _ _ _ _ h, List.length_map]
+      · rw [sampleCovariance_eq_total _ _ (by simpa using h) (by simpa using hx),
+          sampleCovariance_eq_total _ _ h hx, comoment_shift _ _ _ _ h, List.length_map]
   · simp [covariance, sampleCovariance, h]
 
 /-- Covariance is bilinear under scaling of the variables. -/
@@ -305,19 +313,19 @@ theorem cov_scale (x y : List α) (s t : α) :
     sampleCovariance (x.map (s * ·)) (y.map (t * ·)) = (sampleCovariance x y).map (s * t * ·) := by
   by_cases h : x.length = y.length
   · constructor
-    · rw [covariance_eq _ _ (by simpa using h), covariance_eq _ _ h, comoment_scale, List.length_map]
+    · rw [covariance_eq_total _ _ (by simpa using h), covariance_eq_total _ _ h, comoment_scale, List.length_map]
       simp [mul_div_assoc]
     · by_cases hx : x = []
       · subst hx
         have : y = [] := List.eq_nil_of_length_eq_zero (by simpa using h.symm)
         subst this; rfl
-      · rw [sampleCovariance_eq _ _ (by simpa using h) (by simpa using hx),
-          sampleCovariance_eq _ _ h hx, comoment_scale, List.length_map]
+      · rw [sampleCovariance_eq_total _ _ (by simpa using h) (by simpa using hx),
+          sampleCovariance_eq_total _ _ h hx, comoment_scale, List.length_map]
         simp [mul_div_assoc]
   · simp [covariance, sampleCovariance, h]
 
 example : var ([100000001, 100000002, 100000003] : List ℚ) = var [1, 2, 3] := by
-  have := var_shift ([1, 2, 3] : List ℚ) 100000000
+  have := var_shift_total ([1, 2, 3] : List ℚ) 100000000
   norm_num at this; exact this
 
 end Invariance
@@ -656,4 +664,130 @@ example : histBinCenters ([0, 1, 3, 7] : List ℚ) = [1 / 2, 2, 5] := by
   norm_num [histBinCenters]
 
 end Hist
+
+section Guarded
+variable {α : Type} [Field α] [CharZero α]
+
+private theorem ne_nil_of_le {l : List α} {k : ℕ} (h : k + 1 ≤ l.length) : l ≠ [] := by
+  intro h0; subst h0; simp at h
+
+/-- `mean` (through the 8-way unrolled sum) is the arithmetic mean of non-empty data. -/
+theorem mean_eq (l : List α) (_h : 1 ≤ l.length) : mean l = mu l := mean_eq_total l
+
+/-- `welford_mean` is the arithmetic mean of non-empty data. -/
+theorem welfordMean_eq (l : List α) (_h : 1 ≤ l.length) : welfordMean l = mu l := welfordMean_eq_total l
+
+/-- The two mean algorithms agree on non-empty data. -/
+theorem means_agree (l : List α) (_h : 1 ≤ l.length) : welfordMean l = mean l := means_agree_total l
+
+/-- Population variance `Σ(x − x̄)²/n`, `n ≥ 1`. -/
+theorem var_eq (l : List α) (_h : 1 ≤ l.length) : var l = m2 l / (l.length : α) := var_eq_total l
+
+/-- Population standard deviation, `n ≥ 1` (`Transc.sqrt` is whatever square root the scalar has:
+the statement is `var_eq` under it). -/
+theorem std_eq [Transc α] (l : List α) (_h : 1 ≤ l.length) :
+    std l = Transc.sqrt (m2 l / (l.length : α)) := std_eq_total l
+
+/-- Sample variance `Σ(x − x̄)²/(n−1)`, `n ≥ 2`. -/
+theorem sampleVar_eq (l : List α) (h : 2 ≤ l.length) :
+    sampleVar l = some (m2 l / ((l.length - 1 : ℕ) : α)) := sampleVar_eq_total l (ne_nil_of_le h)
+
+theorem sampleStd_eq [Transc α] (l : List α) (h : 2 ≤ l.length) :
+    sampleStd l = some (Transc.sqrt (m2 l / ((l.length - 1 : ℕ) : α))) :=
+  sampleStd_eq_total l (ne_nil_of_le h)
+
+/-- Population covariance `Σ(xᵢ−x̄)(yᵢ−ȳ)/n`, `n ≥ 1`. -/
+theorem covariance_eq (x y : List α) (h : x.length = y.length) (_h1 : 1 ≤ x.length) :
+    covariance x y = some (comoment x y / (x.length : α)) := covariance_eq_total x y h
+
+/-- Sample covariance `Σ(xᵢ−x̄)(yᵢ−ȳ)/(n−1)`, `n ≥ 2`. -/
+theorem sampleCovariance_eq (x y : List α) (h : x.length = y.length) (h2 : 2 ≤ x.length) :
+    sampleCovariance x y = some (comoment x y / ((x.length - 1 : ℕ) : α)) :=
+  sampleCovariance_eq_total x y h (ne_nil_of_le h2)
+
+/-- The repaired shifted one-pass algorithm (F17) computes the sample covariance, `n ≥ 2`. -/
+theorem onepass_eq_sampleCovariance (x y : List α) (h : x.length = y.length) (h2 : 2 ≤ x.length) :
+    sampleCovarianceOnepass x y = sampleCovariance x y :=
+  onepass_eq_sampleCovariance_total x y h (ne_nil_of_le h2)
+
+/-- The repaired online algorithm (F18) computes the sample covariance, `n ≥ 2`. -/
+theorem online_eq_sampleCovariance (x y : List α) (h : x.length = y.length) (h2 : 2 ≤ x.length) :
+    sampleCovarianceOnline x y = sampleCovariance x y :=
+  online_eq_sampleCovariance_total x y h (ne_nil_of_le h2)
+
+/-- All provided covariance algorithms agree (`n ≥ 2`): the three sample algorithms return the same
+value `comoment / (n−1)` and the population covariance is the same co-moment divided by `n`. -/
+theorem covariance_algorithms_agree (x y : List α) (h : x.length = y.length) (h2 : 2 ≤ x.length) :
+    sampleCovarianceOnepass x y = sampleCovariance x y ∧
+    sampleCovarianceOnline x y = sampleCovariance x y ∧
+    sampleCovariance x y = some (comoment x y / ((x.length - 1 : ℕ) : α)) ∧
+    covariance x y = some (comoment x y / (x.length : α)) :=
+  covariance_algorithms_agree_total x y h (ne_nil_of_le h2)
+
+/-- Variance is unchanged by adding a constant to the data (`n ≥ 1`, every size of the constant). -/
+theorem var_shift (l : List α) (c : α) (_h : 1 ≤ l.length) : var (l.map (· + c)) = var l :=
+  var_shift_total l c
+
+theorem sampleVar_shift (l : List α) (c : α) (_h : 2 ≤ l.length) :
+    sampleVar (l.map (· + c)) = sampleVar l := sampleVar_shift_total l c
+
+/-- The two two-pass covariances are unchanged by adding constants to either variable (`n ≥ 2`); with
+`covariance_algorithms_agree` the same holds for the one-pass and the online algorithm. -/
+theorem cov_shift (x y : List α) (c d : α) (_h2 : 2 ≤ x.length) :
+    covariance (x.map (· + c)) (y.map (· + d)) = covariance x y ∧
+    sampleCovariance (x.map (· + c)) (y.map (· + d)) = sampleCovariance x y := cov_shift_total x y c d
+
+/-- Shift invariance of the one-pass and online algorithms (through agreement with the two-pass one). -/
+theorem cov_shift_all (x y : List α) (c d : α) (h : x.length = y.length) (h2 : 2 ≤ x.length) :
+    sampleCovarianceOnepass (x.map (· + c)) (y.map (· + d)) = sampleCovarianceOnepass x y ∧
+    sampleCovarianceOnline (x.map (· + c)) (y.map (· + d)) = sampleCovarianceOnline x y := by
+  have hm : (x.map (· + c)).length = (y.map (· + d)).length := by simpa using h
+  have hm2 : 2 ≤ (x.map (· + c)).length := by simpa using h2
+  rw [onepass_eq_sampleCovariance _ _ hm hm2, online_eq_sampleCovariance _ _ hm hm2,
+    onepass_eq_sampleCovariance _ _ h h2, online_eq_sampleCovariance _ _ h h2]
+  exact ⟨(cov_shift x y c d h2).2, (cov_shift x y c d h2).2⟩
+
+example : sampleCovarianceOnline ([1, 2, 4] : List ℚ) [3, 1, 1] = some (-4 / 3) := by
+  rw [online_eq_sampleCovariance [1, 2, 4] [3, 1, 1] rfl (by decide),
+    sampleCovariance_eq [1, 2, 4] [3, 1, 1] rfl (by decide)]
+  norm_num [comoment, mu]
+
+example : var ([5, 5, 8] : List ℚ) = 2 := by
+  rw [var_eq _ (by decide)]; norm_num [m2, mu]
+
+end Guarded
+
+section Degenerate
+variable {α : Type} [Field α] [CharZero α]
+
+/-- **Below the guards the code divides by zero.**  Every quantity below is the quotient the model (and
+the Rust code) forms at the degenerate size; the denominator is the literal `0`, so the `f64` result is
+`0.0/0.0 = NaN` (observed and compared by the correspondence check on the corpus lines `mean 0`,
+`var 0`, `svar 1 x`, `scov 1 x 1 y` …), while in a Lean field the same term is `0` by convention —
+which is why the `_total` identities hold there and why the property theorems exclude these sizes. -/
+theorem degenerate_sizes (x y : α) :
+    mean ([] : List α) = 0 / 0 ∧ welfordMean ([] : List α) = 0 ∧ var ([] : List α) = 0 / 0 ∧
+    covariance ([] : List α) [] = some (0 / 0) ∧
+    sampleVar [x] = some (0 / 0) ∧ sampleCovariance [x] [y] = some (0 / 0) ∧
+    sampleCovarianceOnepass [x] [y] = some (0 / 0) ∧ sampleCovarianceOnline [x] [y] = some (0 / 0) := by
+  refine ⟨?_, ?_, ?_, ?_, ?_, ?_, ?_, ?_⟩
+  · simp [mean, sum8, sum8Go]
+  · simp [welfordMean, welfordStatistics]
+  · simp [var, welfordStatistics]
+  · simp [covariance]
+  · simp [sampleVar, welfordStatistics, welfordUpdate]
+  · simp [sampleCovariance]
+  · simp [sampleCovarianceOnepass]
+  · simp [sampleCovarianceOnline, onlineStep]
+
+/-- The panicking sizes: `usize` underflow of `n − 1` at `n = 0` (overflow checks on; a release
+build without them wraps and returns NaN — outside the property's quantifier). The online algorithm counts
+in `f64` and returns `0/(0−1)` instead. -/
+theorem panicking_sizes :
+    sampleVar ([] : List α) = none ∧ sampleCovariance ([] : List α) [] = none ∧
+    sampleCovarianceOnepass ([] : List α) [] = none ∧
+    sampleCovarianceOnline ([] : List α) [] = some (0 / (0 - 1)) :=
+  ⟨sampleVar_nil, sampleCovariance_nil, by simp [sampleCovarianceOnepass], online_nil⟩
+
+end Degenerate
 end Cv.C08
